@@ -110,7 +110,8 @@ def unique_disjuncts(sc):
             raise Refuse('negative entry in syscond')
     out = []
     if sc[3] != 0:
-        out += [([], SLOTS[i][1], sc[3]) for i in (0, 1, 2)]
+        # slot 3 active: the whole first group of `absentSpec` is `¬ reset3` (slots 0-2 no longer matter)
+        out.append(('r3', None, sc[3]))
     else:
         out += [([], SLOTS[i][1], sc[i]) for i in (0, 1, 2) if sc[i] != 0]
     for i in range(4, 26):
@@ -123,6 +124,9 @@ def unique_disjuncts(sc):
 def disj_text(d, names):
     A, B, C = names
     g, x, m = d
+    if g == 'r3':
+        return '¬((%s) %% %d = 0 ∧ (%s) %% %d = 0 ∧ (%s) %% %d = 0)' % (
+            X_TXT[(1, 1, 0)].format(A=A, B=B, C=C), m, X_TXT[(1, 0, 1)].format(A=A, B=B, C=C), m, X_TXT[(0, 1, 1)].format(A=A, B=B, C=C), m)
     parts = [GUARD_TXT[t].format(A=A, B=B, C=C) for t in g]
     parts.append('(%s) %% %d ≠ 0' % (X_TXT[x].format(A=A, B=B, C=C), m))
     return ' ∧ '.join(parts)
@@ -132,6 +136,8 @@ def disj_eval(d, T, P):
     """truth of the disjunct on the sample points P (n x 3) for the triple with matrix T"""
     g, x, m = d
     abc = P @ np.array(T).T
+    if g == 'r3':
+        return ~(((abc @ np.array((1, 1, 0))) % m == 0) & ((abc @ np.array((1, 0, 1))) % m == 0) & ((abc @ np.array((0, 1, 1))) % m == 0))
     ok = (abc @ np.array(x)) % m != 0
     for t in g:
         ok &= (abc @ np.array(t)) == 0
@@ -284,6 +290,51 @@ def greedy_cover(target, cands):
     return chosen
 
 
+def _forms():
+    out = []
+    rng = (0, 1, -1, 2, -2)
+    for a in rng:
+        for b in rng:
+            for c in rng:
+                v = (a, b, c)
+                nz = [x for x in v if x != 0]
+                if not nz or nz[0] < 0 or np.gcd.reduce([abs(x) for x in nz]) != 1:
+                    continue
+                out.append(v)
+    out.sort(key=lambda v: (sum(abs(x) for x in v), sum(1 for x in v if x), v))
+    return out
+
+
+FORMS = _forms()
+
+
+def rank(rows):
+    if len(rows) == 0:
+        return 0
+    return int(np.linalg.matrix_rank(np.array(rows, dtype=float)))
+
+
+def implied_eqs(F, base_forms):
+    """omega (no dark / grey shadows) is weak on equalities that only follow from the cone inequalities.  F = the sample
+       points of the cones on which the linear part of a lemma's hypotheses holds; base_forms = the linear forms those
+       hypotheses state as equalities.  When the cones cut the solution space down further, return independent linear forms
+       vanishing on F; the lemma first proves each `form = 0` by a purely linear `omega` call."""
+    rF = rank(F)
+    if rF >= 3 - rank(base_forms):
+        return []
+    chosen = []
+    for v in FORMS:
+        if len(chosen) == 3 - rF:
+            break
+        if not (F @ np.array(v)).any() and rank(chosen + [v]) == len(chosen) + 1:
+            chosen.append(v)
+    return chosen
+
+
+def emit_eqs(forms):
+    return ''.join('  have q%d : %s = 0 := by omega\n' % (n, lin_text(v, 0)) for n, v in enumerate(forms))
+
+
 # ------------------------------------------------------------------------------------------------
 # per-setting emission
 
@@ -359,8 +410,6 @@ def build_setting(key, o, rules, Pbox, Pimpl, tools):
     s += 'private theorem T51.nfu_%s (a b c : Int) : Tools.sysabs_unique a b c %s.syscond = 0 ↔ ¬ T51.NFu_%s a b c := by\n' % (K, T, K)
     s += '  rw [T51.unique_zero_iff]\n  apply not_congr\n'
     s += '  simp [C05.absentSpec, C05.fires, C05.reset3, %s, T51.NFu_%s, T51.natAbs_emod_eq_zero, T51.natAbs_add_natAbs_eq_zero, and_assoc]\n' % (T, K)
-    if sc[3] != 0:
-        s += '  try omega\n'
     s += '\n'
     s += '/-- the conditions on all index triples that `sysabs` looks at for this setting -/\n'
     s += 'def T51.NF_%s (h k l : Int) : Prop :=\n  %s\n\n' % (K, ' ∨ '.join('T51.NFu_%s %s' % (K, ' '.join(n)) for n, _ in triples))
@@ -381,6 +430,8 @@ def build_setting(key, o, rules, Pbox, Pimpl, tools):
                 s += '  exact absurd e (Sg.not_extinctBy_of_t0 _ h k l rfl rfl rfl)\n\n'
                 continue
             s += '  simp only [Sg.ExtinctBy, %s] at e c\n' % cone
+            Rm = np.array(op[0])
+            s += emit_eqs(implied_eqs(P[np.all(P @ Rm == P, axis=1)], [tuple(col) for col in (Rm - np.eye(3, dtype=int)).T if any(col)]))
             if not m.any():
                 s += '  exfalso; omega\n\n'
                 continue
@@ -407,6 +458,11 @@ def build_setting(key, o, rules, Pbox, Pimpl, tools):
                 nlem += 1
                 s += '  simp only [%s] at c\n' % cone
                 m = dmask[j][i]
+                gforms = [] if d[0] == 'r3' else [tuple(int(x) for x in np.array(g) @ np.array(Tm)) for g in d[0]]
+                Fm = np.ones(len(P), dtype=bool)
+                for g in gforms:
+                    Fm &= (P @ np.array(g)) == 0
+                s += emit_eqs(implied_eqs(P[Fm], gforms))
                 if not m.any():
                     s += '  exfalso; omega\n\n'
                     continue
